@@ -4,17 +4,21 @@
 # Must be run with a clean /repo working tree.
 cd /verif
 [ -z "$(git -C /repo status --short)" ] || { echo "/repo is not clean"; exit 2; }
+head0=$(git -C /repo rev-parse HEAD)
+[ "$(git -C /repo symbolic-ref -q --short HEAD)" = main ] || { echo "/repo is not on main"; exit 2; }
 out=/verif/seeded/MATRIX.txt
 if [ -n "$SEEDS" ]; then cp $out $out.tmp; else : > $out.tmp; fi
 # the runs below rewrite evidence files with results from mutated trees: keep the real ones
 rm -rf /verif/.build/evidence.keep && cp -r /verif/evidence /verif/.build/evidence.keep
 for d in seeded/${SEEDS:-C*}/; do
+  [ -f "$d/patch.diff" ] || { echo "no such seed: $d"; continue; }
   s=$(basename $d); prop=${s%%-*}
   base=""
   if ! git -C /repo apply --check /verif/$d/patch.diff 2>/dev/null; then
      # seeds written against the pre-fix snapshot of a file that a later "fix:" commit rewrote
      f=$(grep -m1 '^+++ b/' $d/patch.diff | sed 's|+++ b/||')
-     git -C /repo checkout -q 446285c -- $f && base="(on pre-fix $f) "
+     [ -n "$f" ] || { echo "$s: patch names no file" >> $out.tmp; continue; }
+     git -C /repo checkout -q 446285c -- "$f" && base="(on pre-fix $f) "
      git -C /repo apply --check /verif/$d/patch.diff 2>/dev/null || { echo "$s: patch does not apply" >> $out.tmp; git -C /repo checkout -q HEAD -- . ; continue; }
   fi
   git -C /repo apply /verif/$d/patch.diff
@@ -23,7 +27,7 @@ for d in seeded/${SEEDS:-C*}/; do
   by="$prop"
   if [ $rc != 1 ]; then
     # not reported by the check of the property it was written for: try the checks of neighbouring properties
-    for alt in C01 C09 C13 C10 C07 C12 C14 C17; do
+    for alt in C01 C09 C13 C10 C07 C12 C14 C05 C17; do
       [ $alt = $prop ] && continue
       res2=$(timeout 2400 ./check $alt quick 2>&1); rc2=$?
       if [ $rc2 = 1 ]; then res="$res2"; rc=1; by="$alt"; break; fi
@@ -31,7 +35,8 @@ for d in seeded/${SEEDS:-C*}/; do
   fi
   git -C /repo checkout -q HEAD -- .
   line=$(echo "$res" | grep -m1 -A1 '^VIOLATION' | tr '\n' ' ' | cut -c1-260)
-  if [ $rc = 1 ]; then verdict="DETECTED by $by quick"; else verdict="NOT detected by $prop quick nor by C01 C09 C13 C10 C07 C12 C14 C17 (exit $rc)"; fi
+  if [ $rc = 1 ]; then verdict="DETECTED by $by quick"; else verdict="NOT detected by $prop quick nor by C01 C09 C13 C10 C07 C12 C14 C05 C17 (exit $rc)"; fi
+  grep -v "^$s: " $out.tmp > $out.tmp2; mv $out.tmp2 $out.tmp
   echo "$s: $base$verdict :: $line" >> $out.tmp
   python3 - "$d" "$prop" "$rc" "$by" <<'PY'
 import json,sys
@@ -44,3 +49,4 @@ done
 rm -rf /verif/evidence && mv /verif/.build/evidence.keep /verif/evidence
 mv $out.tmp $out
 cat $out | cut -c1-200
+test "$(git -C /repo rev-parse HEAD)" = "$head0" || echo "WARNING: /repo HEAD moved during the matrix run"
